@@ -432,6 +432,8 @@ class Engine:
                     raise Unsupported("index into struct")
                 v = self._lazy_field(v, item, state)
             elif isinstance(v, ArrObj):
+                if type(item).__name__ == "View":
+                    return self.read_view(state, v, item, path, node)
                 self.check_index(state, v, item, node)
                 if v.mode == "list":
                     ci = const_int(item)
